@@ -183,6 +183,8 @@ class Check:
         from pyvc import frame
         from contracts import frames as F
         todo = [c for c in F.for_prop(prop or self.prop) if names is None or c["name"] in names]
+        for msg in frame.summary_consistency(F.FRAMES, F.SUMMARISES):
+            self.errors.append("frame summaries inconsistent: " + msg)
         n_ob = 0
         for c in todo:
             t1 = time.time()
@@ -190,7 +192,10 @@ class Check:
             self.functions.append(dict(name=r["name"], target=r["target"], source_sha=r["source_sha"], lines=r["lines"], status=r["status"],
                                        seconds=round(time.time() - t1, 4), cover=r["cover"], kind="frame contract"))
             for cal in sorted(c.get("callees", {})):
-                self.trusted.add(f"assumed frame summary of {cal} (in the contract of {c['name']})")
+                if (c["name"], cal) in F.SUMMARISES:
+                    self.trusted.add(f"frame summary of {cal} in the contract of {c['name']}: checked against the contract of {F.SUMMARISES[(c['name'], cal)]}")
+                else:
+                    self.trusted.add(f"assumed frame summary of {cal} (in the contract of {c['name']})")
             if r["status"] == "undecided" and not r["obligations"]:
                 self.undecided_targets.append(f"{r['name']}: {r['detail']}")
                 self.notes.append(f"{r['name']}: undecided ({r['detail']}) -> degraded-to-bounded")
